@@ -37,7 +37,7 @@ func isCtxDone(v ssa.Value) bool {
 }
 
 func c05(p *core.Prog, r *core.Report) {
-	r.Explain = "Decides, over the synchronous call tree of the outbound-call entry points (BeginCall on channel/peer/sub-channel, Connect, ping, the argument writers and readers): (R1) every blocking wait is context-aware: each blocking select has an arm on a context's Done(); no bare channel send/receive waits for a peer; the dialer receives the caller's context (or one derived from it); handshake I/O is ordered after a deadline taken from the context; and no mutex acquired on that tree is ever held, anywhere in the package, across a network-bound operation (dial, handshake, connection I/O, blocking select); (R2) connection failure unblocks callers: connectionError and protocolError reach stopExchanges for both exchange sets, stopExchanges notifies every exchange, and every blocking select of the exchange has the error-latch arm; (R4) calls with less than a millisecond left fail locally with the timeout error and the context handed to connection acquisition and to the call is the caller's. A failed frame write reaches connectionError (closing the socket alone leaves the exchanges running). The handshake's deadline reset is deferred before its failure handler (so the error frame is written under the deadline); (R5) a retried call's outcome carries nothing decoded by a failed attempt (shared with C18). (R6) only completely read frames are dispatched and every read error ends the reader loop through the connection error handler (shared with C03-R3)."
+	r.Explain = "Decides, over the synchronous call tree of the outbound-call entry points (BeginCall on channel/peer/sub-channel, Connect, ping, the argument writers and readers): (R1) every blocking wait is context-aware: each blocking select has an arm on a context's Done(); no bare channel send/receive waits for a peer; the dialer receives the caller's context (or one derived from it); handshake I/O is ordered after a deadline taken from the context; and no mutex acquired on that tree is ever held, anywhere in the package, across a network-bound operation (dial, handshake, connection I/O, blocking select); (R2) connection failure unblocks callers: connectionError and protocolError reach stopExchanges for both exchange sets, stopExchanges notifies every exchange, and every blocking select of the exchange has the error-latch arm; (R4) calls with less than a millisecond left fail locally with the timeout error and the context handed to connection acquisition and to the call is the caller's. A failed frame write reaches connectionError (closing the socket alone leaves the exchanges running). The handshake's deadline reset is deferred before its failure handler (so the error frame is written under the deadline); (R5) a retried call's outcome carries nothing decoded by a failed attempt (shared with C18). (R6) only completely read frames are dispatched and every read error ends the reader loop through the connection error handler (shared with C03-R3). (R7) no method re-acquires the mutex of the object it is called on while that mutex is held; the wait for the health checker's exit is entered only while it was not stopped before."
 	r.NotDecided = "wall-clock bounds and scheduling slack; behaviour at each byte offset of a cut connection; that the response delivered is the right one (C01/C02/C04 cover necessary parts)."
 	r.Rule("C05-R1", "E4c blocking/ctx", 8, "blocking waits on the outbound call path are context-aware; no mutex held across network-bound operations")
 	r.Rule("C05-R2", "E6 paths", 6, "connection failure notifies every exchange; exchange waits have the error-latch arm")
